@@ -285,6 +285,12 @@ def gen_c01(rng, idx, tier, faults):
                     cur = None
                 if rng.random() < 0.5:
                     curX, curY = (xo, yo) if curX == xn else (xn, yn)
+                elif yn and rng.random() < 0.5:
+                    # the same X, other targets (nothing keyed by the data alone may be reused)
+                    vn = f"v{o}"
+                    if vn not in heap:
+                        heap[vn] = gen_y(rng, xs["shape"][0])
+                    curX, curY = xn, (vn if curY != vn else yn)
                 if reuse and curX == xn:
                     rec = {k: v for k, v in xs.items() if k != "storage"}
                     rec["seed"] = _seed(rng)
@@ -465,7 +471,9 @@ def gen_c06(rng, idx, tier, faults):
     reject_at, reject_with = None, None
     if len(sched) > 1 and rng.random() < 0.1:
         reject_at = rng.randrange(1, len(sched))
-        if rng.random() < 0.7:
+        if rng.random() < 0.25:
+            reject_with = ("initialize", rng.choice(["frist", n_from + 5, -n_from - 3]), p.get("initialize", 0))
+        elif rng.random() < 0.7:
             reject_with = ("full_fraction", rng.choice([0, -0.25, 1.5, "auto"]), p.get("full_fraction") or rng.choice([0.3, 0.7, 1.0]))
         else:
             reject_with = ("n_to_select", rng.choice([0, -3, 1.5, n_from + 7]), forms[reject_at])
@@ -672,6 +680,15 @@ def gen_c08(rng, idx, tier, faults):
             q["score_threshold"]["upto"] = sched[0]
             must_lower = True
         seq = [{"op": "NEW", "obj": name, "cls": cls, "params": q, "final": final, "X": xn, "y": yn}]
+        if fam in ("cur", "pcovcur") and rng.random() < 0.12:
+            # the object was used before with ANOTHER refresh setting (a cold fit), then
+            # re-parameterised: the chain's own cold fit must start from scratch
+            other = 1 if q.get("recompute_every", 1) == 0 else 0
+            q0 = dict(q)
+            q0["recompute_every"] = other
+            seq[0] = dict(seq[0], params=q0)
+            seq.append({"op": "FIT", "obj": name, "X": xn, "y": yn, "warm": False, "env": None, "prelude": True})
+            seq.append({"op": "SET", "obj": name, "params": {"recompute_every": q.get("recompute_every", 1)}})
         if shared and o == 1 and xs.get("storage", "C") not in ("readonly", "memmap"):
             rec = {k: v for k, v in xs.items() if k != "storage"}
             rec["seed"] = _seed(rng)
